@@ -8,3 +8,4 @@ for id in $(jq -r '.checks[].property_id' MANIFEST.json); do
   end=$(date +%s)
   echo "$id rc=$rc $((end-start))s $(echo "$out" | grep -c '^VIOLATION') violations, $(echo "$out" | grep -c '^KNOWN-FINDING') known | $(echo "$out" | tail -1 | cut -c1-160)"
 done
+python3 tools/evcheck.py | grep -v "^OK" ; true
